@@ -253,6 +253,40 @@ SHIFT_PROGS += [
 ]
 
 
+# ---- location histories: an error's location is a function of its own throw site, not of what was thrown before it ----------------
+LOC_BODIES = ["null.alpha;", "null.beta;", "undefinedThing.prop;", "throw new Error('x');", "throw new TypeError('y');", "'a'.repeat(-1);", "(void 0)();", "new Array(-1);",
+              "var q = 1; null.alpha;", "if (true) { null.alpha; }", "throw {custom: 1};", "JSON.parse('{');", "[].reduce(function () { });"]
+LOC_CALLS = ["probe(%s);", "[4].forEach(function () { probe(%s); });", "probe(function () { return %s(); });", "(0, eval)('probe(%s)');", "new Function('probe(%s)')();",
+             "probe(%s.bind(null));", "probe(function () { [1].map(%s); });", "try { %s(); } catch (e0) { out.push(['%s', e0 && e0.lineNumber, e0 && e0.columnNumber]); }"]
+
+
+def location_history(rng):
+    """(source prefix with K functions - many of the same shape - at random positions, list of call statements)."""
+    k = rng.randint(2, 6)
+    pool = rng.sample(LOC_BODIES, rng.randint(1, 3))      # few distinct shapes: same-shaped functions are the norm
+    lines = ["var out = [];", "function probe(f) { try { f(); } catch (e) { out.push([f.name, e && e.lineNumber, e && e.columnNumber]); } }"]
+    names = []
+    for i in range(k):
+        nm = "fn%d" % i      # same-length names: the functions compile to the same instruction bytes when their bodies agree
+        names.append(nm)
+        lines += [""] * rng.randint(0, 3)
+        style = rng.random()
+        body = rng.choice(pool)
+        ind = " " * rng.randint(0, 9)
+        if style < 0.6:
+            lines += ["function %s() {" % nm, ind + body, "}"]
+        elif style < 0.8:
+            lines += [ind + "function %s() { %s }" % (nm, body)]
+        else:
+            lines += ["var %s = function %s() {" % (nm, nm), "", ind + body, "};"]
+    calls = []
+    for _ in range(rng.randint(3, 8)):
+        nm = rng.choice(names)
+        c = rng.choice(LOC_CALLS)
+        calls.append((nm, c.replace("%s", nm)))
+    return "\n".join(lines) + "\n", calls
+
+
 def main(ctx):
     cases = []
     for sn, site in THROW_SITES:
@@ -289,6 +323,18 @@ def main(ctx):
             l2[ti] = " " * k + l2[ti]
             shifts.append({"id": h(["shiftc", name, k]), "name": name, "kind": "col", "k": k, "src": "\n".join(l2),
                            "marker": marker})
+    lrng = random.Random(ctx.seed * 13 + 5)
+    lochist = []
+    for i in range(150 if ctx.quick else 2500):
+        pre, calls = location_history(lrng)
+        tail = "\nlog(out);"
+        lochist.append({"hist": i, "role": "history", "calls": [c[0] for c in calls], "src": pre + "\n".join(c[1] for c in calls) + tail})
+        seen_iso = set()
+        for nm, c in calls:
+            if (nm, c) in seen_iso:
+                continue
+            seen_iso.add((nm, c))
+            lochist.append({"hist": i, "role": "alone", "call": c, "src": pre + c + tail})
     ep = engine_pool()
     np_ = node_pool() if have_node() else None
     if np_ is None:
@@ -296,6 +342,7 @@ def main(ctx):
     try:
         pairs = diff.run_cases(ep, np_, cases, opts={"max_steps": 100000})
         sres = ep.map({"mod": "vf.engine", "fn": "w_run", "opts": {}}, [{"src": c["src"]} for c in shifts], batch=10)
+        lres = ep.map({"mod": "vf.engine", "fn": "w_run", "opts": {}}, [{"src": c["src"]} for c in lochist], batch=20)
     finally:
         ep.close()
         if np_:
@@ -386,6 +433,56 @@ def main(ctx):
             rec.write(json.dumps({"cid": c["id"], "fam": "shift", "ident": [c["name"], c["kind"], c["k"]], "why": [prob],
                                   "obs": h(prob, 10), "src": c["src"]}) + "\n")
         ctx.violation(("shift", c["name"], c["kind"]), {"case": c, "problem": prob})
+    # location histories: what each call reports in the history must be what the same call reports alone in the same source prefix
+    def outlist(r):
+        if not r or r.get("out") != "ok" or not r.get("log"):
+            return None
+        arr = r["log"][0][0]
+        if arr[0] != "a":
+            return None
+        res = []
+        for ent in arr[2]:
+            if ent[0] != "a":
+                return None
+            res.append([x[1] if x[0] == "s" else (num(x) if x[0] == "d" else x[0]) for x in ent[2]])
+        return res
+    alone = {}
+    loc_compared = 0
+    for c, r in zip(lochist, lres):
+        if c["role"] == "alone":
+            alone[(c["hist"], c["call"])] = outlist(r)
+    hist_src = {}
+    for c, r in zip(lochist, lres):
+        if c["role"] != "history":
+            continue
+        ctx.count()
+        got = outlist(r)
+        if got is None:
+            ctx.violation(("location-history", "history-program-failed"), {"case": c, "observed": str(r)[:600]})
+            continue
+        # re-derive the call statements from the source tail
+        pre_lines = c["src"].split("\n")
+        ncalls = len(c["calls"])
+        call_stmts = pre_lines[-(ncalls + 1):-1]
+        exp = []
+        for st in call_stmts:
+            a = alone.get((c["hist"], st))
+            if a is None:
+                exp = None
+                break
+            exp += a
+        if exp is None:
+            ctx.violation(("location-history", "isolated-program-failed"), {"case": c})
+            continue
+        loc_compared += len(exp)
+        if got != exp:
+            bad = [i for i, (x, y) in enumerate(zip(got, exp)) if x != y]
+            ctx.violation(("location-history", "location-depends-on-earlier-throws"),
+                          {"case": c, "reported_in_history": got, "reported_by_each_call_alone": exp, "first_difference_at_call": bad[:1],
+                           "monitor": "metamorphic: same source prefix, the call alone vs in a sequence of earlier throws"})
+        elif any(isinstance(x[1], int) for x in got):
+            ctx.nontrivial(("lochist", c["hist"]))
+    ctx.cov["location_history_entries_compared"] = loc_compared
     if rec:
         rec.close()
     if thrown_paths == 0:
